@@ -262,6 +262,63 @@ func ruleShutdown(c *core.Ctx, a *epAnchors) {
 		c.Check(bad == "", rule, "bus/net.endPoint.closeWith/stream-close-no-io-lock", pos, "no lock held across stream I/O is needed to close the stream", bad)
 	}
 
+	// the same one level down: a Stream implementation whose Close takes a mutex that its
+	// own Write or Read holds across the I/O of the connection it wraps cannot be closed
+	// while a writer is blocked on a peer that does not read — and closing the stream is
+	// the only way shutdown has to release that writer
+	{
+		type io struct {
+			f   *ssa.Function
+			pos token.Pos
+		}
+		heldAcrossIO := map[core.LockClass]io{}
+		var closers []*ssa.Function
+		for _, f := range srcFuncsOfPkg(c, "bus/net") {
+			if f.Signature.Recv() == nil || f.Parent() != nil {
+				continue
+			}
+			switch f.Name() {
+			case "Close":
+				closers = append(closers, f)
+			case "Write", "Read":
+				var flf *core.LockFacts
+				for _, call := range core.Calls(f) {
+					cc := call.Common()
+					name := ""
+					if cc.IsInvoke() {
+						name = cc.Method.Name()
+					} else if sf := cc.StaticCallee(); sf != nil {
+						name = sf.Name()
+					}
+					if name != "Write" && name != "Read" {
+						continue
+					}
+					if flf == nil {
+						flf = core.AnalyzeLocks(f)
+					}
+					for class := range flf.MayHeld(call.(ssa.Instruction)) {
+						heldAcrossIO[class] = io{f, call.Pos()}
+					}
+				}
+			}
+		}
+		bad := ""
+		pos := fn.Pos()
+		for _, f := range closers {
+			for _, call := range core.Calls(f) {
+				op, ok := core.LockOpOf(call)
+				if !ok || (op.Kind != core.OpLock && op.Kind != core.OpRLock) {
+					continue
+				}
+				if w, both := heldAcrossIO[op.Class]; both {
+					bad = fmt.Sprintf("%s takes %s, which %s holds across its I/O on the wrapped connection (%s): while a writer is blocked on a peer that does not read, Close waits for the mutex instead of closing the connection, which is the only thing that would release the writer — shutdown never completes, pending calls are never failed and disconnect callbacks never fire", core.FuncKey(f), op.Class, core.FuncKey(w.f), c.Pos(w.pos))
+					pos = call.Pos()
+				}
+			}
+		}
+		c.Check(bad == "", rule, "bus/net/stream-implementations/close-no-io-lock", pos, fmt.Sprintf("no Close of a stream implementation (%d examined) takes a mutex its Read/Write hold across I/O", len(closers)), bad)
+	}
+
 	// every non-nil slot closed with the error; the walk over the table may live in
 	// a helper of closeWith that is handed the error (closeHandlers(err))
 	errParam := ssa.Value(fn.Params[1])
